@@ -9,6 +9,7 @@ all equal it.
 """
 from __future__ import annotations
 
+import copy
 import io
 import json
 import tempfile
@@ -29,7 +30,7 @@ ASSUMPTIONS = ["intersection documents use unique-id leaves (membership of boole
 
 def plan(tier, seed):
     n = 14 if tier == "quick" else 46
-    return [{"n": 450 if tier == "quick" else 5000} for _ in range(n)]
+    return [{"kind": "scale"}] + [{"n": 450 if tier == "quick" else 5000} for _ in range(n)]
 
 
 def recs(ms):
@@ -46,9 +47,30 @@ def fold(operand_results, ops):
     return cur
 
 
+LOOKALIKES = [{}, [], {"a": 1}, [["a", 1]], "x", ["x"], [[]], {"a": []}, {"a": {}}, 7, "7", [7], None, [None], {"b": 2, "a": 1}, [["a", 1], ["b", 2]], "", [""], {"0": "x"}, [{"a": 1}], ["a", 1]]
+
+
+def run_scale(ctx):
+    """Compound queries whose operands produce many values (sizes around round thresholds), the left side made of
+    container look-alikes of which the right side holds every other one."""
+    def Q(*names):
+        return ["q", "$", [["child", [["name", n]]] for n in names] + [["child", [["wild"]]]]]
+    for n in (15, 16, 17, 63, 64, 65, 127, 129, 255, 257, 1025, 5000):
+        some = [copy.deepcopy(v) for v in LOOKALIKES[1::2]]
+        doc = {"L": copy.deepcopy(LOOKALIKES), "R": some + [1000 + i for i in range(n - len(some))], "M": [[i] for i in range(n)] + [[]]}
+        for comp in ([Q("L"), ["&", Q("R")]], [Q("L"), ["&", Q("R")], ["|", Q("L")]], [Q("R"), ["&", Q("L")]], [Q("L"), ["|", Q("R")], ["&", Q("R")]], [Q("L"), ["&", Q("M")]], [Q("M"), ["&", Q("M")], ["&", Q("L")]], [Q("L"), ["&", Q("R")], ["&", Q("L")]]):
+            text = Renderer(ctx.rng, plain=True).compound(comp)
+            ctx.case(h("scale", n, text), True)
+            replay({"text": text, "doc": doc, "comp": comp, "filter_context": None}, ctx, tag="scale")
+        ctx.cell("scale", "right-hand values=%d" % n)
+
+
 def run(spec, ctx):
     import jsonpath
 
+    if spec.get("kind") == "scale":
+        run_scale(ctx)
+        return
     r = ctx.rng
     env2 = jsonpath.JSONPathEnvironment()
     for _ in range(spec["n"]):
@@ -209,7 +231,7 @@ def finalize(m, tier):
     return {"inconclusive": inc}
 
 
-def replay(case, ctx):
+def replay(case, ctx, tag="replay"):
     import jsonpath
 
     text, doc, comp = case["text"], case["doc"], case["comp"]
@@ -226,13 +248,13 @@ def replay(case, ctx):
     for name, got in (("finditer", recs(p.finditer(doc, **kw))), ("module.finditer", recs(jsonpath.finditer(text, doc, **kw))), ("text", recs(p.finditer(json.dumps(doc), **kw))), ("stringio", impl.call(lambda: recs(p.finditer(io.StringIO(json.dumps(doc))))).value),
                       ("stringio.findall", impl.call(lambda: [(tuple(), canon(v)) for v in p.findall(io.StringIO(json.dumps(doc)))]).value and want)):
         if got != want:
-            ctx.violation("entry-points-disagree:replay:%s" % name, case, {"got": repr(got)[:400], "want": repr(want)[:400]})
+            ctx.violation("entry-points-disagree:%s:%s" % (tag, name), case, {"got": repr(got)[:400], "want": repr(want)[:400]})
     fa = [canon(v) for v in p.findall(doc, **kw)]
     if fa != [c for _, c in want]:
-        ctx.violation("entry-points-disagree:replay:findall", case, {"got": repr(fa)[:400]})
+        ctx.violation("entry-points-disagree:%s:findall" % tag, case, {"got": repr(fa)[:400]})
     m = p.match(doc, **kw)
     if (None if m is None else (tuple(m.parts), canon(m.obj))) != (want[0] if want else None):
-        ctx.violation("entry-points-disagree:replay:match", case, {})
+        ctx.violation("entry-points-disagree:%s:match" % tag, case, {})
     qv = [canon(v) for v in p.query(doc, **kw).values()]
     if qv != [c for _, c in want]:
-        ctx.violation("entry-points-disagree:replay:query", case, {"got": repr(qv)[:400]})
+        ctx.violation("entry-points-disagree:%s:query" % tag, case, {"got": repr(qv)[:400]})
